@@ -74,7 +74,11 @@ EXPLANATION = (
     'symbolic-shape interpretation over the independent extents observations / '
     'features / states / state pairs (element-wise operands, matrix-product '
     'contraction, index variables, bincount weights, reduced axis, result '
-    'shape). The information-theoretic identities '
+    'shape). Added in the sixth wave: (D11.result-range) every range limiter '
+    '(clip / maximum / minimum / masked store) on the way from the summed '
+    'terms to the return of an MI estimator is the identity on [0, +inf); a '
+    'finite upper bound only >= 1, under the normalize flag and after the '
+    'channel-capacity normalisation. The information-theoretic identities '
     'themselves and rounding-level deviations from them are not decided.')
 
 
@@ -3966,6 +3970,229 @@ def d9_weighted_shapes(ck):
             ck.missing(rule, 'symbolic shape of the value weighted_mi returns (%s)' % (v,))
 
 
+# ---- range limiters on the returned MI ---------------------------------------------------------
+
+_INF_TEXTS = {'np.inf', 'numpy.inf', 'math.inf', 'np.Inf', 'np.infty', 'np.Infinity', 'np.PINF', "float('inf')", "float('Inf')",
+              "float('infinity')", "float('+inf')"}
+_NINF_TEXTS = {'np.NINF', "float('-inf')", "float('-Inf')", "float('-infinity')"}
+
+
+def _bound_value(fi, b):
+    """A bound of a range limiter as ('none',) (absent / None / infinite on
+    its own side is decided by the caller), ('num', x) or ('unk', text)."""
+    if b is None:
+        return ('none',)
+    e = canon(fi.expand(b))
+    if _is_const(e, None):
+        return ('none',)
+    c = const_value(e)
+    if isinstance(c, (int, float)) and not isinstance(c, bool):
+        return ('num', float(c))
+    t = u(e)
+    if t in _INF_TEXTS:
+        return ('num', float('inf'))
+    if t in _NINF_TEXTS:
+        return ('num', float('-inf'))
+    if isinstance(e, ast.UnaryOp) and isinstance(e.op, (ast.USub, ast.UAdd)) and u(e.operand) in _INF_TEXTS:
+        return ('num', float('-inf') if isinstance(e.op, ast.USub) else float('inf'))
+    return ('unk', t)
+
+
+def _limiter(call):
+    """(carrier, lo, hi) when `call` limits the range of its first operand
+    element-wise (clip / maximum / minimum and their spellings), else None.
+    lo / hi are expressions or None (no bound on that side)."""
+    if not isinstance(call, ast.Call) or any(isinstance(a, ast.Starred) for a in call.args) or any(k.arg is None for k in call.keywords):
+        return None
+    cn = call_name(call) or ''
+    kw = {k.arg: k.value for k in call.keywords}
+    is_method = isinstance(call.func, ast.Attribute) and not (
+        isinstance(call.func.value, ast.Name) and call.func.value.id in _MODULE_ALIASES)
+    if cn in ('np.clip', 'numpy.clip'):
+        a = list(call.args)
+        if not a and 'a' not in kw:
+            return None
+        car = a[0] if a else kw['a']
+        lo = a[1] if len(a) > 1 else kw.get('a_min', kw.get('min'))
+        hi = a[2] if len(a) > 2 else kw.get('a_max', kw.get('max'))
+        return car, lo, hi
+    if is_method and call.func.attr == 'clip':
+        a = list(call.args)
+        lo = a[0] if a else kw.get('min', kw.get('a_min'))
+        hi = a[1] if len(a) > 1 else kw.get('max', kw.get('a_max'))
+        return call.func.value, lo, hi
+    if cn in ('np.maximum', 'np.fmax', 'np.minimum', 'np.fmin') and len(call.args) >= 2:
+        x, y = call.args[:2]
+        # the carrier is the operand that is not a constant
+        cx, cy = const_value(canon(x)), const_value(canon(y))
+        if (cx is None) == (cy is None) and not (u(x) in _INF_TEXTS or u(y) in _INF_TEXTS):
+            return None
+        car, b = (y, x) if (cx is not None or u(x) in _INF_TEXTS) else (x, y)
+        return (car, b, None) if cn in ('np.maximum', 'np.fmax') else (car, None, b)
+    return None
+
+
+def _masked_limiter(fi, st, name):
+    """`R[R < c] = c` / `R[c < R] = c` as (lo, hi); ('other',) for any other
+    value-dependent store into R; None when `st` is not a masked store."""
+    if not (isinstance(st, ast.Assign) and len(st.targets) == 1 and isinstance(st.targets[0], ast.Subscript)):
+        return None
+    t = st.targets[0]
+    if not (isinstance(t.value, ast.Name) and t.value.id == name):
+        return None
+    m = canon(fi.expand(t.slice, stop=(name,)))
+    if not (isinstance(m, ast.Compare) and len(m.ops) == 1):
+        return None
+    l, r, op = m.left, m.comparators[0], m.ops[0]
+    if not isinstance(op, (ast.Lt, ast.LtE)):
+        return ('other',)
+    v = _bound_value(fi, st.value)
+    if isinstance(l, ast.Name) and l.id == name:            # R < c: cells below c are overwritten
+        b = _bound_value(fi, r)
+        return (r, None) if b[0] == 'num' and v == b else ('other',)
+    if isinstance(r, ast.Name) and r.id == name:            # c < R: cells above c are overwritten
+        b = _bound_value(fi, l)
+        return (None, l) if b[0] == 'num' and v == b else ('other',)
+    return ('other',)
+
+
+def d11_result_range(ck):
+    """The value an MI estimator returns is the sum of the terms p log(p/q),
+    optionally divided by the channel capacity.  Whatever LIMITS THE RANGE of
+    that value on its way to the return (clip, maximum / minimum against a
+    constant, `R[R < c] = c`) must be the identity on every value the property
+    admits there: MI in nats lies in [0, +inf) - it equals the entropy on the
+    diagonal, which exceeds any constant once a feature has enough evenly
+    populated states - so a lower bound must be <= 0 and a FINITE upper bound
+    is only admissible for the channel-capacity-normalised matrix (values in
+    [0, 1]): bound >= 1, at a place that control reaches only under the
+    `normalize` flag and after the normalisation.  The result is followed
+    backwards from every return through names (reaching definitions), copies,
+    the normalisation call and the limiters themselves; in-place limiters
+    (`out=R`, masked stores) of the objects on that path are included."""
+    rule = 'C18.D11.result-range'
+    mod = ck.repo.mod(MI)
+    for F in ('weighted_mi', 'mi_matrix', 'mutual_information'):
+        fn = mod.func(F)
+        if fn is None:
+            ck.missing(rule, 'function %s' % F)
+            continue
+        ck.analysed(mod, fn)
+        fi = _fi(mod, fn)
+        ps = params(fn)
+        flag = 'normalize' if 'normalize' in ps else None
+        ccn_calls = [c for c in calls_in(fn) if (call_name(c) or '').split('.')[-1] == 'channel_capacity_normalization']
+        rets = [r for r in returns_of(fn) if r.value is not None]
+        if not rets:
+            ck.missing(rule, 'return value of %s' % F)
+            continue
+        found = []          # (node, stmt, lo, hi, through_ccn)
+        other = []          # value-dependent stores the rule does not read as a limiter
+        seen = set()
+
+        def inplace(name, at):
+            for ms in fi._mutated_in_place(name):
+                if (id(ms), name) in seen or not (ms is at or fi.cfg.reachable(ms, at)):
+                    continue
+                seen.add((id(ms), name))
+                ml = _masked_limiter(fi, ms, name)
+                if ml is not None:
+                    if ml == ('other',):
+                        other.append(ms)
+                    else:
+                        found.append((ms, ms, ml[0], ml[1]))
+                    continue
+                if isinstance(ms, (ast.Expr, ast.Assign)) and isinstance(ms.value, ast.Call):
+                    c = ms.value
+                    o = kwarg(c, 'out')
+                    lim = _limiter(c)
+                    if lim is not None and isinstance(o, ast.Name) and o.id == name:
+                        found.append((c, ms, lim[1], lim[2]))
+                        visit(lim[0], ms, 0)
+
+        def visit(e, at, depth):
+            if depth > 16 or e is None:
+                return
+            if isinstance(e, ast.Name):
+                if e.id in _MODULE_ALIASES or (e.id, id(at)) in seen:
+                    return
+                seen.add((e.id, id(at)))
+                inplace(e.id, at)
+                for d in fi.rd.defs_at(at, e.id):
+                    if d in ('PARAM', 'UNBOUND') or d is at:
+                        continue
+                    v = fi.def_value(d, e.id)
+                    if v is not None:
+                        visit(v, d, depth + 1)
+                return
+            if isinstance(e, ast.IfExp):
+                visit(e.body, at, depth + 1)
+                visit(e.orelse, at, depth + 1)
+                return
+            if isinstance(e, ast.Call):
+                if e in ccn_calls and e.args and not isinstance(e.args[0], ast.Starred):
+                    visit(e.args[0], at, depth + 1)
+                    return
+                lim = _limiter(e)
+                if lim is not None:
+                    found.append((e, at, lim[1], lim[2]))
+                    visit(lim[0], at, depth + 1)
+                    return
+            p = _passthrough(e)
+            if p is not None and p is not e:
+                visit(p, at, depth + 1)
+            # anything else (the reduction over the state pairs, arithmetic): the values behind it are not the MI matrix
+
+        for r in rets:
+            visit(r.value, r, 0)
+        for ms in other:
+            ck.missing(rule, 'value-dependent store `%s` into the result of %s is not read as a range limiter' % (u(ms)[:80], F))
+        done = set()
+        for node, st, lo, hi in found:
+            if id(node) in done:
+                continue
+            done.add(id(node))
+            con = 'range limiter on the result: %s' % u(node)[:100]
+            blo, bhi = _bound_value(fi, lo), _bound_value(fi, hi)
+            # ---- lower bound
+            if blo[0] == 'unk':
+                ck.missing(rule, 'lower bound `%s` of %s in %s' % (blo[1][:60], u(node)[:60], F))
+                continue
+            if bhi[0] == 'unk' and not (blo[0] == 'num' and blo[1] > 0):
+                ck.missing(rule, 'upper bound `%s` of %s in %s' % (bhi[1][:60], u(node)[:60], F))
+                continue
+            if blo[0] == 'num' and blo[1] > 0:
+                ck.bad(rule, mod, node, F, con,
+                       'the lower bound %g is positive: mutual information is 0 for independent features, every value in [0, %g) the '
+                       'estimator computes is raised to %g' % (blo[1], blo[1], blo[1]))
+                continue
+            if bhi[0] == 'none' or bhi[1] == float('inf'):
+                ck.ok(rule, mod, node, con, 'identity on [0, +inf): lower bound %s, no finite upper bound' % (
+                    'absent' if blo[0] == 'none' else '%g' % blo[1]))
+                continue
+            c = bhi[1]
+            pol = _flag_polarity(fi, st, flag) if flag is not None else None
+            after = any(fi.cfg.dominates(fi.stmt(cc), st) or any(x is cc for x in ast.walk(node)) for cc in ccn_calls)
+            if pol is True and after and c >= 1:
+                ck.ok(rule, mod, node, con, 'upper bound %g >= 1 applied only to the channel-capacity-normalised matrix (under `%s`)' % (c, flag))
+            elif pol is True and after:
+                ck.bad(rule, mod, node, F, con,
+                       'the upper bound %g is below 1: the channel-capacity-normalised MI of a feature with itself is 1' % c)
+            else:
+                ck.bad(rule, mod, node, F, con,
+                       'the result is limited from above by the constant %g on a path where it is NOT the channel-capacity-normalised '
+                       'matrix (%s): mutual information in nats is unbounded - on the diagonal it equals the Shannon entropy, which is '
+                       'ln 3 = 1.0986 for three evenly populated states - so every entry above %g is silently truncated: the diagonal '
+                       'no longer equals the entropy and the weighted estimator with uniform weights differs from the count-based one. '
+                       'A finite upper bound is valid only for values in [0, 1], i.e. inside the `normalize` branch after '
+                       'channel_capacity_normalization' % (
+                           c, 'no test of `%s` dominates it' % flag if flag is not None and pol is None else
+                           'it runs when `%s` is false' % flag if flag is not None else 'this function does not normalise', c))
+        if not found and not other:
+            ck.ok(rule, mod, fn, 'no range limiter between the sum of the terms and the return of %s' % F,
+                  'the returned value is not clipped')
+
+
 def ck_has_bad(ck, rule):
     return any(o.get('rule') == rule and o.get('status') in ('VIOLATED', 'KNOWN-FINDING') for o in ck.obligations)
 
@@ -3987,6 +4214,7 @@ def check(ck):
     d9_weighted(ck)
     d9_weighted_structure(ck)
     d9_weighted_shapes(ck)
+    d11_result_range(ck)
     d10_rejections(ck)
     check_no_arg_mutation(ck, 'C18.D8.inputs-unmodified', [
         (MI, 'joint_counts'), (MI, 'mutual_information'), (MI, 'mi_matrix'),
